@@ -71,8 +71,9 @@ CHECKS = {
     "C10": dict(cat="fault_enumeration", ref="6/C10", tech="fault enumeration at runtime: every (position, format-fault kind) and every (sink, call index) write/flush throw enumerated for a 12-statement history, larger histories sampled; offline checker",
                 text="Faults are injected into the real backend (run-time format mismatches, user formatter throwing std / non-std / int, backtrace without init, "
                      "scripted sink throws) and the sink logs are checked: nothing else disturbed, at most one statement missing on the throwing sink and those after "
-                     "it, notifier called, flush returns, probe processed. Found and repaired the non-std-exception livelock.",
-                note="single-line statements; no sink throw inside a backtrace replay"),
+                     "it, notifier called, flush returns, probe processed. Sink throws are also enumerated over every write of a backtrace history (trigger statement, every "
+                     "replay position) against the exact ring model. Found and repaired the non-std-exception livelock and the duplicated / lost backtrace replay after a sink throw.",
+                note="single-line statements"),
     "C16": dict(cat="exploration", ref="6/C16", tech="runtime monitoring: side-effect counters in log arguments + offline per-sink acceptance model over recording sinks",
                 text="Library macros (LOG_*, LOG_DYNAMIC) with a side-effecting argument; logger level, per-sink thresholds, scripted filters and override patterns drawn "
                      "per scenario; static and dynamic statements share 1-2 transit slots. Judged: evaluation <=> level >= logger level; per-sink acceptance model; "
